@@ -54,8 +54,7 @@ def prepare(tier):
     lib.build("rel", ["libiphreeqc_rel.so"])
 
 
-def copy_dump(I):
-    """exception-safe Phreeqc copy construction (shim/shim_c10.cpp); '!!EXC...' when the copy constructor throws"""
+def _c10(I):
     import ctypes as C
     L = I.L
     if not getattr(L, "_c10_ready", False):
@@ -63,8 +62,29 @@ def copy_dump(I):
         L.c10_copy_dump.restype = C.c_void_p
         L.c10_assign_dump.argtypes = [C.c_void_p]
         L.c10_assign_dump.restype = C.c_void_p
+        L.c10_storagebin_into.argtypes = [C.c_void_p, C.c_void_p]
+        L.c10_storagebin_into.restype = C.c_void_p
+        L.c10_raw_dump.argtypes = [C.c_void_p]
+        L.c10_raw_dump.restype = C.c_void_p
+        L.c10_storagebin_text.argtypes = [C.c_void_p]
+        L.c10_storagebin_text.restype = C.c_void_p
         L._c10_ready = True
-    return I._take(L.c10_copy_dump(I.ptr))
+    return L
+
+
+def copy_dump(I):
+    """exception-safe Phreeqc copy construction (shim/shim_c10.cpp); '!!EXC...' when the copy constructor throws"""
+    return I._take(_c10(I).c10_copy_dump(I.ptr))
+
+
+def raw_dump(I):
+    """dump_raw of every entity in the instance's eleven maps, in DUMP -all order (shim/shim_c10.cpp)"""
+    return I._take(_c10(I).c10_raw_dump(I.ptr))
+
+
+def storagebin_into(I, J):
+    """phreeqc2cxxStorageBin on I, cxxStorageBin2phreeqc into J; J's dump_raw text"""
+    return I._take(_c10(I).c10_storagebin_into(I.ptr, J.ptr))
 
 
 # ------------------------------------------------------------------------------------------- dump text tools
@@ -549,7 +569,20 @@ def _check(case, ctx, inst):
 
     # (5a) Phreeqc copy and Serializer on the original: dump_raw text before == after
     _trace("raw_dump")
-    R1 = A.raw_dump()
+    R1 = raw_dump(A)
+    # the in-memory rendering of the original agrees with what DUMP -all wrote (same blocks, same text)
+    bd = {(k, n): "\n".join(l) for k, n, l in blocks(D1)[0]}
+    br = {(k, n): "\n".join(l) for k, n, l in blocks(R1)[0]}
+    if bd != br:
+        for key in sorted(set(bd) | set(br)):
+            if bd.get(key) != br.get(key):
+                raise Violation("dump", "%s %d: DUMP -all text vs dump_raw of the entity maps: %s" % (
+                    key[0], key[1], first_diff(bd.get(key, "<absent>"), br.get(key, "<absent>"))))
+    # (5) the storage bin carries the state into another instance unchanged
+    T = inst()
+    Rt = storagebin_into(A, T)
+    if Rt != R1:
+        raise Violation("storagebin", "dump_raw after phreeqc2cxxStorageBin -> cxxStorageBin2phreeqc into a fresh instance: %s" % first_diff(R1, Rt))
     _trace("copy_dump")
     if case["db"] in NO_COPY_DBS and not case.get("known_copy"):
         ctx.event("excluded_engine_copy_pitzer_sit")
@@ -566,6 +599,7 @@ def _check(case, ctx, inst):
     _trace("serialize done")
     if Rs is None:
         raise Violation("serializer", "Serialize/Deserialize failed")
+    Rs = raw_dump(S)
     def ser_text(kind, lines):
         # known finding: cxxSolution::Serialize does not carry viscos_0 (the copy holds the constructor's default 1)
         if kind == "SOLUTION" and not case.get("known_serializer_viscos_0"):
@@ -611,9 +645,10 @@ def _check(case, ctx, inst):
     D3 = dump_of(C, "dump")
     fixed_point(D2, D3, ctx, "third instance reading the second dump")
     # (5b) storage-bin round trip on the restored state
-    Rb = B.raw_dump()
+    Rb = raw_dump(B)
     _trace("storagebin")
-    Rb2 = B.roundtrip_storagebin()
+    B.roundtrip_storagebin()
+    Rb2 = raw_dump(B)
     _trace("storagebin done")
     if Rb2 != Rb:
         raise Violation("storagebin", "dump_raw after phreeqc2cxxStorageBin -> cxxStorageBin2phreeqc differs: %s" % first_diff(Rb, Rb2))
